@@ -166,13 +166,6 @@ def negExactNoShift (k : Kind) (s : Seg) (_ : Path) : Bool :=
 def resolvedIdx (c : Col) (i : Int) : Nat :=
   if i < 0 then ((c.minLength : Int) + i).toNat else i.toNat
 
-/-- an index segment meets an array with a known index more than one past the removed one:
-    `remove_shift` moves only `index + 1`. -/
-def removeShiftLossy (k : Kind) (s : Seg) (_ : Path) : Bool :=
-  match s, k.array with
-  | .index i, some c => c.known.any (fun key _ => decide (key.idx > resolvedIdx c i + 1))
-  | _, _ => false
-
 /-- a negative index meets an array of unknown length whose candidate range
     `min_index ..= largest_known_index` contains an index that is not known: `remove_inner` only
     considers the removal of known indices, so the shift caused by removing an unknown one is missed. -/
@@ -275,7 +268,7 @@ def unionAltReq (k : Kind) (s : Seg) (_ : Path) : Bool :=
 /-- the finding classes of C19 (`none` = outside every class). -/
 inductive Cls where
   | minlen_counts_optional | neg_insert_exact_noshift | insert_union_alt | inf_over_exact
-  | remove_neg_underflow | remove_shift | remove_neg_gap | remove_through_unknown
+  | remove_neg_gap | remove_through_unknown
   | compact_optional_known | compact_union_alt | merge_overwrite_maybe_absent
   | merge_unknown_overwrite | superset_inf_vs_exact | canon_exact_to_infinite | neg_min | none
   deriving DecidableEq, Repr
@@ -285,8 +278,6 @@ def Cls.name : Cls → String
   | .neg_insert_exact_noshift => "D_neg_insert_exact_noshift"
   | .insert_union_alt => "D_insert_union_alt"
   | .inf_over_exact => "D_inf_over_exact"
-  | .remove_neg_underflow => "D_remove_neg_underflow"
-  | .remove_shift => "D_remove_shift"
   | .remove_neg_gap => "D_remove_neg_gap"
   | .remove_through_unknown => "D_remove_through_unknown"
   | .compact_optional_known => "D_compact_optional_known"
@@ -312,7 +303,6 @@ def insertClass (K : Kind) (p : Path) (X : Kind) : Cls :=
 
 def removeClass (K : Kind) (p : Path) (compact : Bool) : Cls :=
   if anyOnPath optionalIdx K p then .minlen_counts_optional
-  else if anyOnPath removeShiftLossy K p then .remove_shift
   else if anyOnPath negGap K p then .remove_neg_gap
   else if anyOnPath throughUnknown K p then .remove_through_unknown
   else if compact && anyOnPath optionalKnown K p then .compact_optional_known
@@ -320,10 +310,10 @@ def removeClass (K : Kind) (p : Path) (compact : Bool) : Cls :=
   else if K.hasNonAnyInf then .inf_over_exact
   else .none
 
-/-- the model predicts the panic: the `-isize::MIN` negation, or the subtraction underflow. -/
+/-- the model predicts the panic: the `-isize::MIN` negation (the only one left since e3023e2). -/
 def panicClassRemove (K : Kind) (p : Path) (compact : Bool) : Cls :=
   match K.remove p compact with
-  | .panic => if Value.pathPanics p then .neg_min else .remove_neg_underflow
+  | .panic => if Value.pathPanics p then .neg_min else .none
   | .ok _ => .none
 
 def panicClassAt (K : Kind) (p : Path) : Cls :=
